@@ -1,4 +1,30 @@
-import Spok.Judge.Syntax
-/-! # Property C11 — theorems (under construction) -/
+import Spok.Props.C07
+/-! # Property C11 — formatting is idempotent
+
+`format (norm t) = format t` holds for EVERY tree (the printer trims comment text, so re-spelling a
+comment as `# ` + trimmed text prints the same).  With `print_parse` (C07) this gives: formatting the
+formatted text returns it unchanged, for every well-formed tree.  Open: `parse_wf` (see `Props/C07`). -/
 namespace Spok.Props.C11
+open Spok
+
+/-- the printed form of the normalised tree is the printed form of the tree — every tree, any literals -/
+theorem format_norm (t : Tree) : format (norm t) = format t := Spok.format_norm t
+
+/-- **C11** for every well-formed tree: format (parse (format t)) = format t, and that parse succeeds.
+    Missing for the full property: `parse_wf`. -/
+theorem C11_partial (t : Tree) (h : wfTree t = true) :
+    (parseRunes (format t)).fail = none ∧ format (parseRunes (format t)).tree = format t :=
+  format_idem C06.C06 h
+
+/-- a fixed point is reached after one application: the tree obtained by re-parsing is again
+    well-formed-for-printing in the sense that printing it again changes nothing (`norm` is idempotent) -/
+theorem norm_idem (t : Tree) : norm (norm t) = norm t := Spok.norm_idem t
+
+/-- the judge accepts the model on well-formed trees -/
+theorem judge_accepts_model_partial (t : Tree) (h : wfTree t = true) :
+    Judge.c11 (flat (format t)) (flat (format (parseRunes (format t)).tree)) = true := by
+  rw [(C11_partial t h).2]; simp [Judge.c11]
+
+example : format (parseRunes (format Fmt.exTree)).tree = format Fmt.exTree := (C11_partial _ Fmt.exTree_wf).2
+
 end Spok.Props.C11
